@@ -241,11 +241,15 @@ func (c24Engine) Execute(t *testing.T, c *simrun.Case, keepLog bool) *simrun.Out
 				if op.K == "advance" {
 					flush()
 					time.Sleep(time.Duration(op.Arg(0)) * time.Second)
+					// (the scheduler takes "the main task was not scheduled for 72 simulated hours" for a deadlock;
+					// three day-long advances in a row must not look like one)
+					sim.Yield("advance")
 					continue
 				}
 				if op.K == "advms" {
 					flush()
 					time.Sleep(time.Duration(op.Arg(0)) * time.Millisecond)
+					sim.Yield("advance")
 					continue
 				}
 				phase = append(phase, i)
